@@ -1,0 +1,57 @@
+// +build verif
+
+package app
+
+// Hooks for the model-checking harness under /verif. Compiled only with the
+// build tag "verif"; nothing here is reachable from a normal build.
+//
+// verifPrepareOptions() is not defined in this file: it is generated at every
+// build from the body of Prepare() in application.go (the part that reloads
+// the persisted options, i.e. everything before the Tendermint node is
+// created) and added to this package through a go build -overlay file, so the
+// harness always runs the start-up code as currently written.
+
+import (
+	"github.com/tendermint/tendermint/store"
+
+	"github.com/Oneledger/protocol/app/node"
+	"github.com/Oneledger/protocol/config"
+	"github.com/Oneledger/protocol/data/chain"
+	"github.com/Oneledger/protocol/data/jobs"
+	"github.com/Oneledger/protocol/storage"
+	"github.com/Oneledger/protocol/vm"
+)
+
+// NewAppForVerif builds an App the way Start() does, minus the Tendermint node.
+func NewAppForVerif(cfg *config.Server, nodeCtx *node.Context, genesisDoc *config.GenesisDoc, blockStore *store.BlockStore) (*App, error) {
+	app, err := NewApp(cfg, nodeCtx)
+	if err != nil {
+		return nil, err
+	}
+	if err := app.verifPrepareOptions(); err != nil {
+		app.Context.Close()
+		return nil, err
+	}
+	app.genesisDoc = genesisDoc
+	app.Context.witnesses.Init(chain.ETHEREUM, app.Context.node.ValidatorAddress())
+	app.Context.SetBlockStore(blockStore)
+	return app, nil
+}
+
+func (app *App) VerifChainState() *storage.ChainState { return app.Context.chainstate }
+func (app *App) VerifDeliverState() *storage.State    { return app.Context.deliver }
+func (app *App) VerifCheckState() *storage.State      { return app.Context.check }
+func (app *App) VerifStateDB() *vm.CommitStateDB      { return app.Context.stateDB }
+func (app *App) VerifJobStore() *jobs.JobStore        { return app.Context.jobStore }
+
+// VerifDBClosed reports whether the chain-state database was closed (which is
+// what handlePanic does after recovering a panic in an ABCI call).
+func (app *App) VerifDBClosed() (closed bool) {
+	defer func() {
+		if r := recover(); r != nil {
+			closed = true
+		}
+	}()
+	_, err := app.Context.db.Has([]byte("verif-probe"))
+	return err != nil
+}
